@@ -61,6 +61,11 @@ def _is_alias_expr(expr):
     return None
 
 
+def struct_name(expr):
+    """self.<field> -> field (any field of the monitor, not only the three policy structures)"""
+    return expr.attr if is_self_attr(expr) else None
+
+
 def _val_exprs(val):
     if isinstance(val, ast.AST):
         yield val
@@ -801,6 +806,41 @@ def run(ctx):
               and cmp_parts(c)[0].slice.value == pos_map and isinstance(cmp_parts(c)[2], ast.Name) and cmp_parts(c)[2].id == dps[1] for c in filt)
     ctx.check(okd, 'C18.R5', 'PolicyDirectoryMonitor.disassociate_policy_and_file|filters-on-owner-position', '%s:%s' % (MONITOR, dfn.lineno),
               'shadow entries are selected by their owner-file position', 'disassociate does not select shadow entries by the owner-file position the push uses')
+
+    # ---------------- R12 a removed file is forgotten entirely
+    ctx.rule('C18.R12', 'when a file leaves the policy directory, scan_policies forgets its modification time together with its policies: in the loop over the files that disappeared, self.file_timestamps loses the entry of that file on every path - otherwise a file that comes back with the same (or an older) modification time, e.g. restored from a backup or moved out and in again, is never loaded again and the names it defines stay missing or shadowed')
+    sfn = ms['scan_policies']
+    sg12, srd12 = graphs['scan_policies']
+    removed_loops = []
+    for lp in [x for x in walk_local(sfn) if isinstance(x, ast.For) and isinstance(x.target, ast.Name)]:
+        fv = lp.target.id
+        calls_ = [c for st_ in lp.body for c in ast.walk(st_) if isinstance(c, ast.Call) and is_self_attr(c.func) and c.func.attr in ('restore_or_delete_policy', 'disassociate_policy_and_file')]
+        drops = [c for c in calls_ if c.func.attr == 'disassociate_policy_and_file' and len(c.args) == 2 and isinstance(c.args[1], ast.Name) and c.args[1].id == fv]
+        loads_ = any(isinstance(c, ast.Call) and (call_name(c) or '').endswith('read_policy_from_file') for st_ in lp.body for c in ast.walk(st_))
+        if drops and not loads_:
+            removed_loops.append((lp, fv))
+    ctx.need(removed_loops, 'unrecognised construct: no loop in scan_policies that withdraws the policies of files that disappeared')
+    for lp, fv in removed_loops:
+        ln = [n for n in sg12.nodes if n.kind == 'loop' and n.stmt is lp][0]
+        forget = []
+        for n in sg12.nodes:
+            if lp not in n.loops:
+                continue
+            for c in calls_at(n):
+                if isinstance(c.func, ast.Attribute) and c.func.attr == 'pop' and struct_name(c.func.value) == 'file_timestamps' and c.args and isinstance(c.args[0], ast.Name) and c.args[0].id == fv:
+                    forget.append(n)
+            if n.kind == 'stmt' and isinstance(n.stmt, ast.Delete):
+                for t_ in n.stmt.targets:
+                    if isinstance(t_, ast.Subscript) and struct_name(t_.value) == 'file_timestamps' and isinstance(t_.slice, ast.Name) and t_.slice.id == fv:
+                        forget.append(n)
+        okf = bool(forget)
+        for st_ in edge_successors(ln, 'T'):
+            seen = sg12.reachable(st_, forget + [ln]) if st_ not in forget else set()
+            for n in sg12.nodes:
+                if n.id in seen and any(m is ln and l in ('loop', 'continue') for m, l in n.succ):
+                    okf = False
+        ctx.check(okf, 'C18.R12', 'PolicyDirectoryMonitor.scan_policies|removed-file-timestamp-forgotten', '%s:%s PolicyDirectoryMonitor.scan_policies' % (MONITOR, lp.lineno),
+                  'the modification time of a file that disappeared is dropped with its policies', 'a file that disappears keeps its entry in self.file_timestamps: if it reappears unchanged it is never loaded again')
 
     # ---------------- R2 shape taint in the parser
     pt = src.tree(POLICY)
